@@ -471,7 +471,7 @@ Fixpoint set_nth (vs : list val) (i : nat) (v : val) : list val :=
 Fixpoint decode (fuel : nat) (c : codec) (b : bytes) (old : val) (flags : Z) {struct fuel} : dres :=
   match fuel with O => OutOfFuel | S fuel' =>
   match c with
-  | CBool => if len b =? 0 then dret 0 (Some proto_ErrUnexpectedEOF) old else dret 1 None (VBool (negb (at_ b 0 =? 0)))
+  | CBool => let '(v, n, err) := proto_decodeVarint b in dret n err (VBool (negb (v =? 0)))
   | CInt | CInt64 =>
       let '(v, n, err) := proto_decodeVarint b in dret n err (VInt (proto_flags_int64 flags v))
   | CInt32 =>
